@@ -8,7 +8,8 @@ from core import term as T
 
 ID = "C33"
 GEN = []
-RULE = ("cases: histories in one process (genuine certificates verified first, then altered copies reusing their signatures, through "
+RULE = ("cases: histories of announcements for the same servers through one real StorageFarmBroker (0/1/2 grid-manager keys, Foolscap "
+        "and HTTP server objects; certificates kept / added / renewed / withdrawn between announcements, clock advancing), histories in one process (genuine certificates verified first, then altered copies reusing their signatures, through "
         "validate_grid_manager_certificate and through fresh verifier closures for several servers) and (configured grid-manager keys, list of certificates, server key, instants at which the predicate is called); "
         "certificates are valid / signed by an unconfigured key / tampered bytes / tampered signature / other server / expired / "
         "future, instants sit on and one microsecond around every expiry; non-trivial = at least one certificate verifies under a "
@@ -423,6 +424,175 @@ def history(ctx, i, terms, info):
         ctx.count("cert:" + c["kind"])
 
 
+class _Reconnector(object):
+    def stopConnecting(self):
+        pass
+
+    def reset(self):
+        pass
+
+
+def _stand_in_tub():
+    """What a NativeStorageServer needs of a foolscap Tub while nothing listens at the other end."""
+    from twisted.application import service
+
+    class StandInTub(service.MultiService):
+        def connectTo(self, furl, callback, *a, **kw):
+            return _Reconnector()
+    return StandInTub()
+
+
+def draw_certs(r, w, keys, me, base, n=None):
+    """A certificate list as a storage server would announce it (all UTF-8, base32-able)."""
+    out = []
+    for _ in range(r.choice([0, 1, 1, 2, 3]) if n is None else n):
+        kind = r.choice(["valid", "valid", "valid", "expired", "soon", "tampered-bytes", "tampered-sig", "other-server", "wrong-signer"])
+        g = r.choice(keys) if keys else r.randrange(NGM)
+        other = (me + 1 + r.randrange(NSRV - 1)) % NSRV
+        exp = base + timedelta(days=r.randrange(1, 400))
+        names, genuine = me, True
+        if kind == "expired":
+            exp = base - timedelta(seconds=r.randrange(1, 10 ** 6))
+        elif kind == "soon":
+            exp = base + timedelta(seconds=r.randrange(1, 50))
+        elif kind == "other-server":
+            names = other
+        elif kind == "wrong-signer":
+            others = [x for x in range(NGM) if x not in keys]
+            if others:
+                g = r.choice(others)
+        data = cert_bytes(key("S%d" % names)[2], exp.isoformat())
+        sig = w.sign(g, data)
+        if kind == "tampered-bytes":
+            orig = cert_bytes(key("S%d" % other)[2], exp.isoformat())
+            sig = w.sign(g, orig)
+            genuine = False
+        elif kind == "tampered-sig":
+            b = bytearray(sig)
+            b[r.randrange(64)] ^= 1 << r.randrange(8)
+            sig = bytes(b)
+            genuine = False
+        out.append(dict(kind=kind, data=data, sig=sig, truth=dict(signer=g, names=names, expires=exp, genuine=genuine)))
+    return out
+
+
+def announcements(ctx, terms, info, only=None):
+    """A long-running client: one real StorageFarmBroker (0/1/2 grid-manager keys; Foolscap or HTTP server objects) is
+    fed HISTORIES of announcements for a few servers -- rising seqnum, new nonce, sometimes a changed FURL/nickname, and a
+    certificate list that is kept, extended (`tahoe admin add-grid-manager-cert`), renewed or withdrawn.  After every
+    announcement every server's upload_permitted() must be the certificate rule applied to the list it announced LAST."""
+    import contextlib
+    import io
+    import allmydata.grid_manager as gm
+    from allmydata.client import config_from_string
+    from allmydata.storage_client import (StorageFarmBroker, StorageClientConfig, NativeStorageServer, HTTPNativeStorageServer,
+                                          ANONYMOUS_STORAGE_NURLS)
+    from allmydata.util import base32
+    saved = gm.current_datetime_with_zone
+    try:
+        for i in (range(ctx.n(30, 300)) if only is None else [only]):
+            r = ctx.rng("announce", i)
+            w = World()
+            keys = [r.randrange(NGM) for _ in range(r.choice([0, 1, 1, 2, 2]))]
+            http = r.random() < 0.35
+            base = datetime(2025, 3, 1, tzinfo=timezone.utc) + timedelta(seconds=r.randrange(10 ** 7), microseconds=r.randrange(10 ** 6))
+            cur = [base]
+            gm.current_datetime_with_zone = lambda: cur[0]
+            cfg = config_from_string(env.subdir("c33-node"), "tub.port", "[client]\nforce_foolscap = %s\n" % ("False" if http else "True"))
+            sb = StorageFarmBroker(True, lambda handler_overrides: _stand_in_tub(), cfg,
+                                   StorageClientConfig(grid_manager_keys=[key("G%d" % g)[1] for g in keys]))
+            servers = list(range(NSRV))
+            held = dict((m, []) for m in servers)
+            seq = dict((m, r.randrange(1, 50)) for m in servers)
+            place = dict((m, 0) for m in servers)
+            hist = []                                   # [(server, certs)] as announced, oldest first
+            steps = []
+            spk_ids = {key("S%d" % k)[2]: 10 + k for k in range(NSRV)}
+            msg_ids, tbl = {}, []
+            hist_terms = []
+            with contextlib.redirect_stdout(io.StringIO()):
+                for step in range(r.choice([3, 4, 5, 6])):
+                    me = r.choice(servers)
+                    what = r.random()
+                    if not any(m == me for m, _ in hist) or what < 0.25:
+                        certs = draw_certs(r, w, keys, me, base)
+                        how = "new list"
+                    elif what < 0.6:
+                        certs = held[me] + draw_certs(r, w, keys, me, base, 1)
+                        how = "one more certificate"
+                    elif what < 0.8:
+                        certs = []
+                        how = "certificates withdrawn"
+                    else:
+                        certs = held[me]
+                        how = "unchanged"
+                    held[me] = certs
+                    seq[me] += r.randrange(1, 4)
+                    if r.random() < 0.2:
+                        place[me] += 1
+                    sid = key("S%d" % me)[2][len(b"pub-"):]
+                    ann = {"service-name": "storage", "version": 0, "nickname": "node-%d" % me, "my-version": "tahoe-lafs/1.19.%d" % step,
+                           "app-versions": {}, "oldest-supported": "1.0", "seqnum": seq[me], "nonce": "n%d" % r.randrange(10 ** 9),
+                           "anonymous-storage-FURL": "pb://%s@tcp:host%d.example:%d/swiss%d" % ("a" * 32, place[me], 3000 + place[me], me),
+                           "permutation-seed-base32": sid[3:].decode(),
+                           "grid-manager-certificates": [{"certificate": c["data"].decode("utf-8"), "signature": base32.b2a(c["sig"]).decode("ascii")}
+                                                         for c in certs]}
+                    if http:
+                        ann[ANONYMOUS_STORAGE_NURLS] = {"pb://%s@host%d.example:%d/swiss%d#v=1" % ("b" * 32, place[me], 4000 + place[me], me)}
+                    sb._got_announcement(sid, ann)
+                    if r.random() < 0.3:
+                        sb._got_announcement(sid, dict(ann))                    # exact repeat
+                    hist.append((me, certs))
+                    t2, cs2 = sym_parts(w, certs, spk_ids, msg_ids, tbl)
+                    hist_terms.append("(%s, %s)" % (T.N(me), T.lst(cs2)))
+                    steps.append("S%d seq=%d place=%d %s: %s" % (me, seq[me], place[me], how, [c["kind"] for c in certs]))
+                    if r.random() < 0.4:
+                        cur[0] = cur[0] + timedelta(seconds=r.choice([1, 30, 60, 3600]))   # time passes; 'soon' certificates run out
+                    # every server the client knows, against the list it announced last
+                    for m in servers:
+                        msid = key("S%d" % m)[2][len(b"pub-"):]
+                        srv = sb.servers.get(msid)
+                        latest = [c for (mm, c) in hist if mm == m]
+                        if srv is None:
+                            obs = None
+                        else:
+                            assert isinstance(srv, HTTPNativeStorageServer if http else NativeStorageServer), srv
+                            try:
+                                res = srv.upload_permitted()
+                                obs = "Permit" if res is True else "Deny" if res is False else "Other:%r" % (res,)
+                            except Exception:
+                                obs = "Raise"
+                        cinfo = {"stream": "announce", "index": i, "configured_keys": keys, "http": http, "server": m, "now": cur[0].isoformat(),
+                                 "announcements_so_far": list(steps)}
+                        if (srv is None) != (not latest):
+                            ctx.oracle_fail("gm-broker-server-set", "broker %s server S%d" % ("does not know" if srv is None else "knows unannounced", m), case=cinfo,
+                                            expected=bool(latest), observed=srv is not None)
+                            continue
+                        if srv is None:
+                            continue
+                        case = dict(world=w, keys=keys, certs=latest[-1], server=m, times=[cur[0]])
+                        want = expected(case, cur[0])
+                        ctx.case(("announce", tuple(keys), http, m, tuple(c["kind"] for c in latest[-1]), len(latest), obs), kind="announce-http" if http else "announce-foolscap")
+                        if obs != ("Permit" if want else "Deny"):
+                            first = [c["kind"] for c in latest[0]]
+                            ctx.oracle_fail("gm-permission-not-from-latest-announcement" if len(latest) > 1 else
+                                            ("gm-permission-granted-without-valid-certificate" if obs == "Permit" else "gm-permission-denied-despite-valid-certificate"),
+                                            "after %d announcements of server S%d (certificates first %s, now %s) upload_permitted() is %s at %s; the certificates it "
+                                            "announces now say %s" % (len(latest), m, first, [c["kind"] for c in latest[-1]], obs, cur[0].isoformat(), "Permit" if want else "Deny"),
+                                            case=cinfo, expected="Permit" if want else "Deny", observed=obs)
+                        terms.append("opt_outcomes_eqb (sym_broker_permitted %s %s %s %s %s %s) [%s]" % (
+                            T.lst(tbl), T.lst([T.N(g) for g in keys]), T.lst(hist_terms), T.N(m), T.N(10 + m), T.lst([T.Z(micros(cur[0]))]),
+                            "Some " + obs if obs in ("Permit", "Deny", "Raise") else "None"))
+                        info.append(("announce", i, cinfo, obs))
+                for srv in list(sb.servers.values()):
+                    try:
+                        srv.stop_connecting()
+                    except Exception:
+                        pass
+    finally:
+        gm.current_datetime_with_zone = saved
+
+
 def run(ctx):
     ctx.correspondence("verifier-vs-model")
     ctx.correspondence("storage-client-wiring-vs-model")
@@ -436,11 +606,12 @@ def run(ctx):
                 ctx.sample({"stream": stream, "case": describe(case), "observed": observed})
     for i in range(ctx.n(40, 400)):
         history(ctx, i, terms, info)
+    announcements(ctx, terms, info)
     bad = ctx.coq_check(IMPORTS, terms, tag="c33")
     for ix in bad:
         stream, i, case, observed = info[ix]
         ctx.mismatch("gm-verifier-model-vs-impl", "Coq model of create_grid_manager_verifier and the implementation differ",
-                     case=dict(case if stream == "history" else describe(case), stream=stream, index=i), observed=observed,
+                     case=dict(case if stream in ("history", "announce") else describe(case), stream=stream, index=i), observed=observed,
                      correspondence="verifier-vs-model")
     ctx.trace(len(terms) - len(bad))
     sign_roundtrip(ctx)
@@ -561,6 +732,11 @@ def _wiring(ctx):
 def replay(ctx, rec):
     c = rec.get("case") or {}
     stream, i = c.get("stream"), c.get("index")
+    if stream == "announce":
+        terms, info = [], []
+        announcements(ctx, terms, info, only=i)
+        return {"announcements": info[-1][2].get("announcements_so_far") if info else None,
+                "model_vs_impl_disagreements": ctx.coq_check(IMPORTS, terms, tag="c33r")}
     if stream == "history":
         terms, info = [], []
         history(ctx, i, terms, info)
